@@ -39,7 +39,8 @@ def describe(tier):
             if tier == "quick"
             else "graphs: L(1..4) all labelled ADMGs + O(5, <=6 edges) (60 460 five-node ADMGs)"
         )
-        + "; every ordered pair of disjoint non-empty X, Y; entry points identify_outcomes and identify(Identification)",
+        + "; every ordered pair of disjoint non-empty X, Y; entry points identify_outcomes and identify(Identification); graphs up "
+        "to 3 nodes also as networkx graphs over string node names",
         "rule": "state = (graph, X, Y); transition = one ID call compared with the identifiability oracle "
         "(Tian-Pearl closure; for n<=4 also the brute-force hedge search) and with input snapshots",
         "assumptions": [
@@ -109,8 +110,47 @@ def check_query(res: Res, g: G, yg, x, y, case, hedge):
         res.violation("side_effect", case, "identify() modified its Identification/Query/graph")
 
 
+def check_string_graph(res: Res, g: G):
+    """The same graph given as networkx graphs over *string* node names (a form Identification accepts and converts):
+    verdicts must agree with the oracle and the caller's networkx graphs must keep their string nodes and edges."""
+    import networkx as nx
+    from y0.algorithm.identify import identify_outcomes
+    from y0.graph import NxMixedGraph
+
+    def build():
+        d, u = nx.DiGraph(), nx.Graph()
+        d.add_nodes_from(g.nodes)
+        u.add_nodes_from(g.nodes)
+        d.add_edges_from(g.di)
+        u.add_edges_from(g.bi)
+        return NxMixedGraph(directed=d, undirected=u)
+
+    def snap(y):
+        return (tuple(map(repr, y.directed.nodes())), tuple(map(repr, y.directed.edges())), tuple(map(repr, y.undirected.nodes())), tuple(map(repr, y.undirected.edges())))
+
+    ys = build()
+    before = snap(ys)
+    for x, y in disjoint_pairs(g.nodes):
+        res.transitions += 1
+        case = {"graph": g.to_json(), "X": list(x), "Y": list(y), "string_nodes": True}
+        try:
+            est = identify_outcomes(ys, treatments={V(n) for n in x}, outcomes={V(n) for n in y})
+            out = est is not None
+        except Exception as e:  # noqa
+            res.violation("total", case, f"identify_outcomes on a string-node graph raised {type(e).__name__}: {e}")
+            continue
+        if out != identifiable_tp(g, x, y):
+            res.violation("complete", case, f"string-node graph: identified={out}, oracle={identifiable_tp(g, x, y)}")
+        if snap(ys) != before:
+            res.violation("side_effect", case, "identify_outcomes changed the caller's string-node networkx graphs")
+            return
+    res.outcomes["string_graph_ok"] += 1
+
+
 def explore_graph(res: Res, g: G, only=None, tier="thorough"):
     yg = to_y0(g)
+    if only is None and len(g.nodes) <= 3:
+        check_string_graph(res, g)
     hedge = len(g.nodes) <= 4
     for x, y in disjoint_pairs(g.nodes):
         if only and (list(x), list(y)) != only:
@@ -132,5 +172,8 @@ def work(shard, tier, seed):
 def replay(case, clause=None):
     g = G.from_json(case["graph"])
     res = Res()
+    if case.get("string_nodes"):
+        check_string_graph(res, g)
+        return [v for v in res.violations if clause is None or v["clause"] == clause]
     explore_graph(res, g, only=[case["X"], case["Y"]])
     return [v for v in res.violations if clause is None or v["clause"] == clause]
